@@ -99,6 +99,7 @@ type world struct {
 	tp     []*parser.Parser  // parser bound to temp t (nil until prepared)
 	c      *Case
 	cpfile map[string]int
+	tpl    string            // directory of the template files of route "parsefile"
 	all    []*runtime.TempVM // every TempVM a request ever ran on
 	hot    *ohttp.HotHandler
 	hotCtx data.Context
@@ -256,6 +257,38 @@ func (w *world) doOp(o Op) (st Step) {
 	switch o.Op {
 	case "add":
 		file := fmt.Sprintf("d%d.php", o.File)
+		if o.Route == "parsefile" {
+			// the template-rendering path ($w->view): VM.ParseFile / TempVM.ParseFile on a file that declares something
+			var decl string
+			switch o.Kind {
+			case "c":
+				decl = "class " + o.Name + " {}"
+			case "i":
+				decl = "interface " + o.Name + " {}"
+			default:
+				decl = "function " + o.Name + "() { return 1; }"
+			}
+			// one template directory per history: the same file id is the same path (same-file re-declaration)
+			if w.tpl == "" {
+				tdir, err := os.MkdirTemp("", "c12tpl-")
+				if err != nil {
+					st.R = 2
+					return
+				}
+				w.tpl, _ = filepath.EvalSymlinks(tdir)
+			}
+			path := filepath.Join(w.tpl, file)
+			os.WriteFile(path, []byte("<?php\n"+decl+"\n"), 0o644)
+			w.thrown = nil
+			if _, acl := v.ParseFile(path, data.NewObjectValue()); acl != nil {
+				st.R = 1
+				st.Msg = acl.AsString()
+			} else if w.thrown != nil {
+				st.R = 1
+				st.Msg = w.thrown.AsString()
+			}
+			return
+		}
 		if o.Route == "parse" {
 			var src string
 			switch o.Kind {
@@ -577,6 +610,11 @@ func runCase(c *Case) (obs Obs) {
 		return Obs{Err: err.Error()}
 	}
 	w := &world{dir: dir, c: c, cpfile: cpfile}
+	defer func() {
+		if w.tpl != "" {
+			os.RemoveAll(w.tpl)
+		}
+	}()
 	w.p = parser.NewParser()
 	w.base = runtime.NewVM(w.p).(*runtime.VM)
 	w.base.SetThrowControl(func(acl data.Control) { w.thrown = acl })
